@@ -339,6 +339,8 @@ int assemble_all(assemblyline_t al, const char *str, int *dest) {
 
   if (dest != NULL)
     *dest = 0;
+  // a negative offset (left behind by a failed call) is not a position
+  FAIL_IF_ERR(al->offset < 0);
   const char *tokenizer = str;
   unsigned int buf_pos = al->offset;
   // read str and assemble instruction line by line
